@@ -419,7 +419,10 @@ def check(case):
                                         dlogp_dpsi=None if U is None else U.copy(), reduce=True)
         g = np.asarray(g, dtype=float)
         case.equal(g.shape, (nbot + ntop,), 'reduced gradient shape', kind='shape')
-        case.close(g, ref.cgrad(F_h, np.concatenate([x[:, hd].flatten(), theta])), rtol=1e-7,
+        gw_ = ref.cgrad(F_h, np.concatenate([x[:, hd].flatten(), theta]))
+        # (an entry that is an exactly cancelling sum times a covariate of 1e8 carries the rounding of the terms: absolute
+        # floor of 1e-12 of the largest entry; found by the thorough tier at VERIF_SEED 4)
+        case.close(g, gw_, rtol=1e-7, atol=1e-12 * float(np.max(np.abs(gw_))) if gw_.size else 0.0,
                    what='d/d(psi, vartheta_0, beta) incl. upstream chain rule')
         if not any(special):
             sc2, dpsi, dth = m.compute_sensitivities(theta.copy(), x.copy(), cov.copy(),
